@@ -172,3 +172,5 @@ func vpPostCloseCalls(x *PeerConnection) []string {
 }
 
 func vpJoin(s []string) string { return strings.Join(s, ",") }
+
+func init() { vUseVNet = true }
